@@ -5,6 +5,7 @@ usage: h_pipeline.py <PROP> <tier> <seed>        -> JSON summary on stdout
        h_pipeline.py --replay <file>              -> JSON verdict for one recorded case
 Every case is (language, text[, extra]); expected values come from the generator's derivation (canon.py)
 or from the property's own relational statement, never from the code under test."""
+import itertools
 import json
 import os
 import random
@@ -67,14 +68,19 @@ def check_c01(lang, text, expected, tags):
         fails.append(("discovery", f"expected functions {enames}, reported {gnames} (missing {missing}, extra {extra})"))
         return fails
     gby = {g["name"]: g for g in got}
+
+    def inside(a, b):
+        return a is not b and tuple(b["start"]) <= tuple(a["start"]) and tuple(a["end"]) <= tuple(b["end"])
     for e in exp:
         g = gby[e["name"]]
+        up, down = any(inside(e, o) for o in exp), any(inside(o, e) for o in exp)
+        role = "unit-role:" + ("middle" if up and down else "outer" if down else "inner" if up else "flat")
         if tuple(g["start"]) != tuple(e["start"]):
-            fails.append(("span-start", f"{e['name']}: start {g['start']} expected {e['start']}"))
+            fails.append(("span-start", f"{e['name']}: start {g['start']} expected {e['start']}", role))
         if tuple(g["end"]) != tuple(e["end"]):
-            fails.append(("span-end", f"{e['name']}: end {g['end']} expected {e['end']}"))
+            fails.append(("span-end", f"{e['name']}: end {g['end']} expected {e['end']}", role))
         if g["length"] != e["length"]:
-            fails.append(("length", f"{e['name']}: length {g['length']} expected {e['length']}"))
+            fails.append(("length", f"{e['name']}: length {g['length']} expected {e['length']}", role))
     return fails
 
 
@@ -164,6 +170,66 @@ def soups(lang, rnd, count, maxlen):
     for _ in range(count):
         n = rnd.randint(1, maxlen)
         yield " ".join(rnd.choice(alpha) for _ in range(n)).replace(" \n ", "\n")
+
+
+def sketches(lang, rnd, count):
+    """Structured random programs: well-formed nests of functions whose layout is random - several functions on one physical
+    line, one-line functions without a block of their own, docstrings that contain characters str.splitlines() treats as line
+    ends, single-token lines."""
+    flavour = canon.LANGS[lang][1]
+    seps = ["\x0c", "\x0b", "\u2028", "\x85", "\x1c", "\r"]
+    for _ in range(count):
+        names = iter("g%d" % i for i in itertools.count())
+        if flavour == "indent":
+            lines = []
+
+            def block(depth, budget):
+                ind = "    " * depth
+                k = rnd.randint(1, 4)
+                for j in range(k):
+                    r = rnd.random()
+                    if r < 0.3 and budget > 0 and depth < 3:
+                        lines.append(f"{ind}def {next(names)}(a):")
+                        block(depth + 1, budget - 1)
+                    elif r < 0.45:
+                        lines.append(f"{ind}def {next(names)}(): pass")
+                    elif r < 0.55:
+                        lines.append(f"{ind}pass")
+                    elif r < 0.65 and j == k - 1:
+                        lines.append(f'{ind}"""a{rnd.choice(seps)}b')
+                        lines.append(f'{ind}c"""')
+                    elif r < 0.7 and j == k - 1:
+                        lines.append(f'{ind}"""a{rnd.choice(seps)}b"""')
+                    else:
+                        lines.append(f"{ind}x = {j}")
+            block(0, 3)
+            yield "\n".join(lines) + rnd.choice(["", "\n"])
+        else:
+            toks = []
+
+            def fn(depth, budget):
+                head = canon.header_c(lang, canon.Func(next(names), 1), "")[0]
+                toks.extend([head, "{"])
+                for j in range(rnd.randint(0, 3)):
+                    if rnd.random() < 0.3 and budget > 0 and canon.NESTING[lang] and lang not in ("C++", "C#", "Java"):
+                        fn(depth + 1, budget - 1)
+                    else:
+                        toks.append(rnd.choice([";", "x = 1;", "foo(x);"]))
+                toks.append("}")
+            wrap = lang in ("Java", "C#")
+            if wrap:
+                toks.extend(["class A", "{"])
+            for _k in range(rnd.randint(1, 4)):
+                fn(0, 2)
+                if rnd.random() < 0.3:
+                    toks.append("int y = 0;" if lang not in ("JavaScript", "TypeScript") else "let y = 0;")
+            if wrap:
+                toks.append("}")
+            p_line = rnd.choice([0.0, 0.3, 0.7, 1.0])      # 0.0: the whole program on one physical line
+            out = toks[0]
+            for t in toks[1:]:
+                out += ("\n" if rnd.random() < p_line else " ") + t
+            yield out + "\n"
 
 
 # ------------------------------------------------------------------------------------------- C16
@@ -378,8 +444,8 @@ def work(job):
             for w in progs:
                 res["evaluations"] += 1
                 res["distinct"].add(hash(w.text()))
-                for kind, what in check_c01(lang, w.text(), w.expected, w.tags):
-                    fail(kind, what, w.text(), {"expected": w.expected}, w.tags)
+                for kind, what, *role in check_c01(lang, w.text(), w.expected, w.tags):
+                    fail(kind, what, w.text(), {"expected": w.expected}, set(w.tags) | set(role))
             res["samples"] = [{"language": lang, "text": progs[1].text()[:300], "expected": progs[1].expected}]
         elif prop in ("C05", "C03"):
             cases = [("canonical", w.text(), w.tags) for w in progs]
@@ -400,6 +466,8 @@ def work(job):
                     sep_texts.append("\n".join([cm + " a" + sep + " b"] + ls))
             for t in extra_texts + sep_texts:
                 cases.append(("edge", t, ()))
+            for t in sketches(lang, rnd, 120 if tier == "quick" else 1500):
+                cases.append(("sketch", t, ()))
             for kind, t, tags in cases:
                 res["evaluations"] += 1
                 res["distinct"].add(hash(t))
